@@ -1,6 +1,6 @@
 (* C13 - property theorems only.  Each is closed by [exact] of a lemma of the
    Proofs files and followed by Print Assumptions. *)
-From VF.C13 Require Import Model Proofs Proofs2 Proofs3 Proofs5 Proofs6 Proofs7 Proofs8.
+From VF.C13 Require Import Model Proofs Proofs2 Proofs3 Proofs5 Proofs6 Proofs7 Proofs8 Proofs9.
 From Coq Require Import Sorted.
 From VF.Lib Require Import Keccak.
 Local Open Scope N_scope.
@@ -111,6 +111,25 @@ Theorem C13_commit_reopen :
 Proof. exact commit_reopen_reachable. Qed.
 Print Assumptions C13_commit_reopen.
 
+(* Garbage collection, partial.  In the memory-only fragment of the node cache
+   - Database.insert of nodes whose children are cached (what Trie.Commit
+   does, children first), Reference(root, meta root), Dereference(root) of a
+   root the meta root references - and for every schedule of these: a root the
+   meta root still references is cached with a positive parent count together
+   with everything reachable from it through the children of cached nodes.  So
+   dereferencing other roots never removes a node of a referenced root.
+   PARTIAL: Cap and Commit (flushing to disk) and explicit references between
+   cached nodes are outside this theorem; they are mirrored in the model
+   (db_cap, db_commit, db_reference) and compared with the implementation node
+   by node on every generated schedule. *)
+Theorem C13_gc_safe_partial :
+  forall s, frag_reach s ->
+  forall root, 0 < ext_get (db_meta s) root ->
+  (exists n, find_node (db_nodes s) root = Some n /\ 0 < cn_parents n) /\
+  forall y, reaches s root y -> In y (hashes (db_nodes s)).
+Proof. exact gc_safe_fragment. Qed.
+Print Assumptions C13_gc_safe_partial.
+
 (* ---- non-vacuity ---------------------------------------------------------- *)
 
 Definition ex_ops1 : list kvop :=
@@ -169,3 +188,30 @@ Example C13_nonvacuous_proofs :
   map fst (iterate t) = [[100;111;101]; [100;111;103;103;108;101;115;119;111;114;116;104]; [100;111;103]].
 Proof. vm_compute. repeat split; try reflexivity. discriminate. Qed.
 Print Assumptions C13_nonvacuous_proofs.
+
+(* the fragment is inhabited by a real schedule: two tries that share nodes are
+   committed and referenced, the first is dereferenced; its private nodes are
+   collected, the shared ones stay *)
+Definition ex_t1 : node := run [KUpdate [17;17] (repeat 65 40); KUpdate [17;34] (repeat 66 40); KUpdate [51] (repeat 67 40)].
+Definition ex_t2 : node := t_update ex_t1 [51] (repeat 68 40).
+Definition ex_fops : list fop :=
+  map (fun p => FInsert (fst p) (snd p)) (commit keccak256 ex_t1) ++ [FRef (root_hash keccak256 ex_t1)] ++
+  map (fun p => FInsert (fst p) (snd p)) (commit keccak256 ex_t2) ++ [FRef (root_hash keccak256 ex_t2)] ++
+  [FDeref (root_hash keccak256 ex_t1)].
+
+Definition ex_state : dbstate :=
+  Eval vm_compute in (match frag_run ex_fops db_empty with Some s => s | None => db_empty end).
+
+Lemma ex_run : frag_run ex_fops db_empty = Some ex_state.
+Proof. vm_compute. reflexivity. Qed.
+
+Example C13_nonvacuous_gc :
+  frag_reach ex_state /\
+  (ext_get (db_meta ex_state) (root_hash keccak256 ex_t2) = 1 /\ ext_get (db_meta ex_state) (root_hash keccak256 ex_t1) = 0 /\
+   length (commit keccak256 ex_t1) = 6%nat /\ length (db_nodes ex_state) = 6%nat /\
+   forallb (fun p => existsb (list_eqb (fst p)) (hashes (db_nodes ex_state))) (commit keccak256 ex_t2) = true /\
+   existsb (list_eqb (root_hash keccak256 ex_t1)) (hashes (db_nodes ex_state)) = false).
+Proof.
+  split; [exact (frag_run_sound _ _ _ fr_empty ex_run)|]. vm_compute. repeat split; reflexivity.
+Qed.
+Print Assumptions C13_nonvacuous_gc.
